@@ -7,11 +7,10 @@ CONSTANTS
   PairOuter = FALSE
   Dump = TRUE
 INVARIANT KeyImpliesPyEq
-INVARIANT MergeExplained
+INVARIANT SharedImpliesObsEq
+INVARIANT PoolSound
 INVARIANT HitReturnsFirst
 INVARIANT SameTextShared
-INVARIANT FixedKeySound
-INVARIANT FixedKeyShares
 INVARIANT NearMissesNotShared
 INVARIANT TaggingLemma
 INVARIANT ObsRefinesEq
